@@ -2,6 +2,10 @@
 #![allow(dead_code, unused_imports)]
 
 mod engines;
+mod gen;
+#[path = "/repo/ragc-cli/src/main.rs"]
+#[allow(warnings)]
+mod ragc_cli;
 mod props;
 mod report;
 mod sched;
